@@ -1,2 +1,158 @@
-def build(chk, w):
-    return []
+"""navierstokes_4d_compressible_powerlaw (nsctpl): modular check mirroring the code (DESIGN.md §4 C03).
+ (a) every derivative member of nsctpl::primitive == symbolic derivative of its operator() term (39 symbolic parameters);
+ (b) Q_rho..Q_rhoe with the primitive calls replaced by jet variables == Navier-Stokes operator with the power-law
+     viscosity applied to abstract fields whose derivatives are the same jet variables;
+ (a)+(b) compose to the property by substitution.  Also used by C07 for the gradient members."""
+import re
+import terms as tm
+from terms import T
+import pde
+import smt
+import framework
+from exec import Ptr, ExecError, merge_paths
+from pde import X, Y, Z, TT
+
+FIELDS = ('rho', 'u', 'v', 'w', 'T')
+DERIVS = ('_t', '_x', '_xx', '_xy', '_xz', '_y', '_yy', '_yz', '_z', '_zz')
+VAR = {'x': X, 'y': Y, 'z': Z, 't': TT}
+
+
+def prim_functions(w, scalar):
+    """{member name: linked function name} of nsctpl::primitive<scalar>"""
+    out = {}
+    for n in w.prog.functions:
+        d = w.models.demangled(n)
+        m = re.match(r'^(?:.* )?MASA::nsctpl::primitive<%s>::(operator\(\)|_\w+)<.*>\(.*\) const$' % re.escape(scalar), d)
+        if m:
+            out[m.group(1)] = n
+    return out
+
+
+def field_pointers(w, view, prims):
+    """sub-object addresses of rho,u,v,w,T: captured from the this-pointer of primitive::operator() under eval_exact_*"""
+    ptrs = {}
+    ex = w.ex
+    seen = []
+    ex.hooks[prims['operator()']] = lambda e, f, args: seen.append(args[0])
+    try:
+        for fld, meth in (('rho', 'eval_exact_rho'), ('u', 'eval_exact_u'), ('v', 'eval_exact_v'), ('w', 'eval_exact_w'), ('T', 'eval_exact_t')):
+            del seen[:]
+            fn = w.method(view.sol, meth, 4)
+            ex.explore(view.st, lambda e: e.call(fn, [view.sol['ptr'], X, Y, Z, TT]), 4)
+            ptrs[fld] = seen[0]
+    finally:
+        ex.hooks.pop(prims['operator()'], None)
+    return ptrs
+
+
+def jet_sym(fld, suffix=''):
+    return tm.sym('J:%s%s' % (fld, suffix))
+
+
+def jet_rule(t, diff):
+    """formal derivative of a jet variable: d/dx J:phi = J:phi_x, d/dy J:phi_x = J:phi_xy, ... (second order at most)"""
+    if t.op != 'sym' or not t.p.startswith('J:'):
+        return None
+    name = t.p[2:]
+    v = [k for k, s in VAR.items() if s is diff.var][0]
+    if '_' in name and name.split('_')[-1].isalpha() and name.split('_')[0] in FIELDS or name in FIELDS:
+        if name in FIELDS:
+            return jet_sym(name, '_' + v)
+        fld, suf = name.rsplit('_', 1)
+        if len(suf) >= 2 or 't' in suf or v == 't':
+            raise ValueError('third-order or mixed time derivative of a jet requested: %s d%s' % (name, v))
+        return jet_sym(fld, '_' + ''.join(sorted(suf + v)))
+    return None
+
+
+def Dj(t, v):
+    return tm.Diff(v, jet_rule)(t)
+
+
+def reference(P):
+    """compressible Navier-Stokes, ideal gas p = rho R T, e = R T/(gamma-1) + |u|^2/2, mu = mu_r (T/T_r)^beta,
+    lambda = lambda_r mu/mu_r, kappa = k_r mu/mu_r; tau = mu (grad u + grad u^T) + lambda div u I; q = -kappa grad T"""
+    rho, u, v, w_, Tt = [jet_sym(f) for f in FIELDS]
+    R, g = P['R'], P['gamma']
+    mu = P['mu_r'] * tm.fn('pow', Tt / P['T_r'], P['beta'])
+    lam = P['lambda_r'] / P['mu_r'] * mu
+    kap = P['kappa_r'] / P['mu_r'] * mu
+    p = rho * R * Tt
+    e = R * Tt / (g - 1) + (u * u + v * v + w_ * w_) / 2
+    vel = [u, v, w_]
+    xs = [X, Y, Z]
+    dv = sum((Dj(vel[i], xs[i]) for i in range(3)), tm.ZERO)
+    tau = [[mu * (Dj(vel[j], xs[i]) + Dj(vel[i], xs[j])) + (lam * dv if i == j else tm.ZERO) for j in range(3)] for i in range(3)]
+    res = {}
+    res['rho'] = Dj(rho, TT) + sum((Dj(rho * vel[j], xs[j]) for j in range(3)), tm.ZERO)
+    for i, nm in enumerate(('rho_u', 'rho_v', 'rho_w')):
+        res[nm] = Dj(rho * vel[i], TT) + sum((Dj(rho * vel[i] * vel[j], xs[j]) for j in range(3)), tm.ZERO) + Dj(p, xs[i]) - sum((Dj(tau[i][j], xs[j]) for j in range(3)), tm.ZERO)
+    res['rho_e'] = Dj(rho * e, TT) + sum((Dj(rho * e * vel[j] + p * vel[j], xs[j]) for j in range(3)), tm.ZERO) \
+        - sum((Dj(sum((vel[i] * tau[i][j] for i in range(3)), tm.ZERO), xs[j]) for j in range(3)), tm.ZERO) \
+        - sum((Dj(kap * Dj(Tt, xs[j]), xs[j]) for j in range(3)), tm.ZERO)
+    grads = dict(p=p, rho=rho, u=u, v=v, w=w_, t=Tt)
+    return res, grads
+
+
+def build(chk, w, scalars=('double', 'long double'), gradients=False):
+    val = []
+    name = 'navierstokes_4d_compressible_powerlaw'
+    for scalar in scalars:
+        v = pde.SolView(chk, w, name, scalar)
+        P = v.P
+        prims = prim_functions(w, scalar)
+        if 'operator()' not in prims or any(d not in prims for d in DERIVS):
+            chk.infra.append('power law: primitive members not found: %r' % sorted(prims))
+            return val
+        ptrs = field_pointers(w, v, prims)
+        ex = w.ex
+        tag = '%s<%s>' % (name, scalar)
+        Lnz = [tm.cmp('ne', P[k], tm.ZERO) for k in ('Lx', 'Ly', 'Lz')]
+        if not gradients:
+            # ---- (a) jets of every primitive field
+            for fld in FIELDS:
+                base = ex.explore(v.st, lambda e: e.call(prims['operator()'], [ptrs[fld], X, Y, Z, TT]), 4)[0]['ret']
+                for d in DERIVS:
+                    lib = ex.explore(v.st, lambda e: e.call(prims[d], [ptrs[fld], X, Y, Z, TT]), 4)[0]['ret']
+                    ref = base
+                    for ch in d[1:]:
+                        ref = tm.D(ref, VAR[ch])
+                    chk.identity('%s:primitive %s%s = d%s %s' % (tag, fld, d, d[1:], fld), lib, ref, Lnz, key='powerlaw:jet:%s%s' % (fld, d), family='powerlaw-jets', witnesses=(d in ('_x', '_yz')))
+                    chk.functions.add(prims[d])
+        # ---- (b) sources / gradients with the primitive calls opaque
+        byptr = dict(((p.rid, p.off), f) for f, p in ptrs.items())
+        for member, fn in prims.items():
+            suf = '' if member == 'operator()' else member
+            ex.opaque[fn] = (lambda e, args, inst, suf=suf: jet_sym(byptr[(args[0].rid, args[0].off)], suf))
+        try:
+            ref, gfields = reference(P)
+            A = [tm.cmp('gt', jet_sym('rho'), tm.ZERO), tm.cmp('gt', jet_sym('T'), tm.ZERO), tm.cmp('gt', P['T_r'], tm.ZERO), tm.cmp('ne', P['mu_r'], tm.ZERO),
+                 tm.cmp('ne', P['gamma'], tm.ONE), tm.cmp('ne', P['R'], tm.ZERO)]
+            if not gradients:
+                for eq in ('rho', 'rho_u', 'rho_v', 'rho_w', 'rho_e'):
+                    lib = v.term('eval_q_' + eq, [X, Y, Z, TT])
+                    chk.identity('%s:eval_q_%s (jets abstract)' % (tag, eq), lib, ref[eq], A, key='powerlaw:eval_q_%s' % eq, family='powerlaw-sources')
+                for fld, meth in (('rho', 'eval_exact_rho'), ('u', 'eval_exact_u'), ('v', 'eval_exact_v'), ('w', 'eval_exact_w'), ('t', 'eval_exact_t'), ('p', 'eval_exact_p')):
+                    lib = v.term(meth, [X, Y, Z, TT])
+                    chk.identity('%s:%s (jets abstract)' % (tag, meth), lib, gfields[fld], A, key='powerlaw:%s' % meth, family='powerlaw-sources', witnesses=False)
+            else:
+                I = tm.sym('i', 'I')
+                for fld in ('rho', 'u', 'v', 'w', 't', 'p'):
+                    fn = w.method(v.sol, 'eval_g_' + fld, 4, 'i')
+                    paths = ex.explore(v.st, lambda e: e.call(fn, [v.sol['ptr'], X, Y, Z, TT, I]), 16)
+                    chk.functions.add(fn)
+                    g = merge_paths(paths)
+                    for k, c in enumerate((X, Y, Z)):
+                        chk.identity('%s:eval_g_%s:i=%d (jets abstract)' % (tag, fld, k + 1), g, Dj(gfields[fld], c), A + [tm.cmp('eq', I, tm.iconst(k + 1))], key='powerlaw:eval_g_%s:i=%d' % (fld, k + 1),
+                                     family='powerlaw-gradients', witnesses=(k == 0))
+                    # out-of-range index: the error value is NaN, independent of the point (the path returns the signalling NaN constant)
+                    bad = []
+                    for p in paths:
+                        inrange = any(b and c.op == 'eq' and any(tm.isc(x) and x.p in (1, 2, 3) for x in c.a) for c, b in p['pc'])
+                        if not inrange and not (isinstance(p['ret'], T) and p['ret'].op == 'sym' and p['ret'].p == 'FP_nan'):
+                            bad.append(pde.pc_term(p['pc']))
+                    chk.paths_clean('%s:eval_g_%s:index-outside-1..3-yields-NaN' % (tag, fld), bad, key='powerlaw:eval_g_%s:range' % fld, family='powerlaw-gradients')
+        finally:
+            for fn in prims.values():
+                ex.opaque.pop(fn, None)
+    return val
